@@ -436,3 +436,25 @@ class Overlay:
             i += 1
         if pos < end:
             self._sources(li + 1, pos, end - pos, res)
+
+
+def copy_shifted(src: Extents, dest: Extents, base: int, limit: int | None = None) -> None:
+    """Copy the extents of `src` into `dest` at offset `base` (holes stay holes); clip to `limit` bytes of src."""
+    for off, p in zip(src._offs, src._provs):
+        ln = p.length
+        if limit is not None:
+            if off >= limit:
+                break
+            ln = min(ln, limit - off)
+        if ln == p.length:
+            dest.put(base + off, p)
+        else:
+            dest.put(base + off, Sub(_ProvView(p), 0, ln))
+
+
+class _ProvView:
+    def __init__(self, p):
+        self.p = p
+
+    def read_at(self, off, n):
+        return self.p.read(off, n)
